@@ -510,6 +510,174 @@ fn judge(c: &Case, ctx: &mut Ctx) -> Verdict {
     Verdict::Pass
 }
 
+// ---------------------------------------------------------------------------------------------------------------
+// C03 part `agenda` (registered by c03.rs): the per-call clauses of C03 on rule sets with agenda groups,
+// lock-on-active, no-loop, activation groups and ActivateAgendaGroup actions. Nothing here predicts the trace (that is
+// C02's claim): the eligibility state is rebuilt from the firings the engine itself reported, and the engine's own
+// final facts and focus are used, so only "bound, counters, early stop => fixpoint" is judged.
+// ---------------------------------------------------------------------------------------------------------------
+
+pub fn run_c03_agenda(s: &mut Src, ctx: &mut Ctx) -> Verdict {
+    let mut c = gen_case(s, 0);
+    c.max_cycles = [1, 2, 3, 4, 6, 8, 12][s.below(7)];
+    // history alphabet of this part: execute / focus / reset / enable / flip (pop, clear and the API activation have
+    // unspecified corners that C02 handles by cutting; they add nothing to C03's clauses)
+    for st in c.steps.iter_mut() {
+        if matches!(st, Step::Pop | Step::Clear | Step::ActivateApi(_)) {
+            *st = Step::Exec(0);
+        }
+    }
+    if probe_only() {
+        return Verdict::Pass;
+    }
+    for r in c.rules.iter_mut() {
+        if r.lock {
+            let own = r.agenda.unwrap_or(0);
+            r.acts.retain(|a| !matches!(a, Act::Activate(g) if *g == own));
+        }
+    }
+    ctx.describe(|| render(&c));
+    let kb = KnowledgeBase::new("kb");
+    for r in &c.rules {
+        if kb.add_rule(to_rule(r)).is_err() {
+            return Verdict::fail("add-rule-error", "add_rule failed for a fresh name");
+        }
+    }
+    let mut engine = RustRuleEngine::with_config(kb, EngineConfig { max_cycles: c.max_cycles, timeout: None, enable_stats: false, debug_mode: false });
+    let log: Arc<Mutex<Vec<String>>> = Arc::new(Mutex::new(Vec::new()));
+    let l2 = log.clone();
+    engine.register_action_handler("trace", move |params, _f| {
+        if let Some(Value::String(n)) = params.get("0") {
+            l2.lock().unwrap().push(n.clone());
+        }
+        Ok(())
+    });
+    let facts = Facts::new();
+    let mut obj = HashMap::new();
+    obj.insert("one".to_string(), Value::Boolean(true));
+    for k in 0..NFLAGS {
+        obj.insert(format!("k{}", k), Value::Boolean(c.flags[k]));
+    }
+    let _ = facts.add_value("F", Value::Object(obj));
+    // eligibility state, driven by what the engine reports
+    let mut rules = c.rules.clone();
+    let mut no_loop_fired: BTreeSet<String> = BTreeSet::new();
+    let mut lock_fired: BTreeMap<usize, BTreeSet<String>> = BTreeMap::new();
+    let mut early_stops = 0;
+    let mut reactivated_lock = false;
+    let mut multi_pass = false;
+    for (si, st) in c.steps.iter().enumerate() {
+        match st {
+            Step::Exec(slot) => {
+                log.lock().unwrap().clear();
+                let res = match catch(|| match *slot {
+                    4 => engine.execute(&facts),
+                    5 => engine.execute_with_callback(&facts, |_n, _f| {}),
+                    _ => engine.execute_at_time(&facts, slot_time(*slot)),
+                }) {
+                    Ok(Ok(r)) => r,
+                    Ok(Err(e)) => return Verdict::fail("execute-error", format!("step {}: Err({})", si, e)),
+                    Err(p) => return Verdict::fail(format!("panic@{}", p.split(": ").next().unwrap_or("?")), p),
+                };
+                let got = log.lock().unwrap().clone();
+                if res.cycle_count > c.max_cycles {
+                    return Verdict::fail("cycle-count-above-bound:agenda", format!("step {}: cycle_count {} > max_cycles {}", si, res.cycle_count, c.max_cycles));
+                }
+                if res.rules_fired != got.len() {
+                    return Verdict::fail("fired-count:agenda", format!("step {}: rules_fired {} but {} firings ran their actions", si, res.rules_fired, got.len()));
+                }
+                if got.is_empty() && res.cycle_count > 1 {
+                    return Verdict::fail("no-early-stop:agenda", format!("step {}: nothing fired but cycle_count = {}", si, res.cycle_count));
+                }
+                // rebuild the eligibility state from the reported firings
+                for name in &got {
+                    let r = match rules.iter().find(|r| &r.name == name) {
+                        Some(r) => r.clone(),
+                        None => return Verdict::fail("unknown-rule-fired:agenda", name.clone()),
+                    };
+                    let grp = r.agenda.unwrap_or(0);
+                    if r.no_loop {
+                        no_loop_fired.insert(r.name.clone());
+                    }
+                    if r.lock {
+                        lock_fired.entry(grp).or_default().insert(r.name.clone());
+                    }
+                    for a in &r.acts {
+                        if let Act::Activate(g) = a {
+                            if lock_fired.get(g).map(|x| !x.is_empty()).unwrap_or(false) {
+                                reactivated_lock = true;
+                            }
+                            lock_fired.insert(*g, BTreeSet::new());
+                        }
+                    }
+                }
+                if got.len() > rules.iter().filter(|r| r.enabled).count() {
+                    multi_pass = true;
+                }
+                if res.cycle_count < c.max_cycles {
+                    // stopped before the bound: its last pass fired nothing, so no eligible rule may be true on the
+                    // engine's own final facts under the engine's own focus
+                    early_stops += 1;
+                    let focus = engine.get_active_agenda_group().to_string();
+                    for r in &rules {
+                        let grp = r.agenda.unwrap_or(0);
+                        let cond_true = match r.cond {
+                            Some((k, v)) => facts.get_nested(&format!("F.k{}", k)) == Some(Value::Boolean(v)),
+                            None => true,
+                        };
+                        let eligible = r.enabled
+                            && GROUPS[grp] == focus
+                            && active_at(r, *slot)
+                            && !(r.no_loop && no_loop_fired.contains(&r.name))
+                            && !(r.lock && lock_fired.get(&grp).map(|x| x.contains(&r.name)).unwrap_or(false));
+                        if eligible && cond_true {
+                            return Verdict::fail(
+                                "not-a-fixpoint:agenda",
+                                format!(
+                                    "step {}: execute stopped after {} of {} cycles (firings {:?}) although rule {} is eligible (enabled, group {} focused, not no-loop-flagged, not locked in the current activation of its group) and its condition is true on the final facts",
+                                    si, res.cycle_count, c.max_cycles, got, r.name, focus
+                                ),
+                            );
+                        }
+                    }
+                }
+            }
+            Step::Focus(g) => {
+                engine.set_agenda_focus(GROUPS[*g]);
+                lock_fired.insert(*g, BTreeSet::new());
+            }
+            Step::ResetNoLoop => {
+                engine.reset_no_loop_tracking();
+                no_loop_fired.clear();
+            }
+            Step::Enable(i, b) => {
+                if let Some(r) = rules.get_mut(*i) {
+                    let _ = engine.knowledge_base().set_rule_enabled(&r.name, *b);
+                    r.enabled = *b;
+                }
+            }
+            Step::Flip(k) => {
+                let cur = facts.get_nested(&format!("F.k{}", k)) == Some(Value::Boolean(true));
+                let _ = facts.set_nested(&format!("F.k{}", k), Value::Boolean(!cur));
+            }
+            Step::Pop | Step::Clear | Step::ActivateApi(_) => {}
+        }
+    }
+    if early_stops > 0 {
+        ctx.label("stopped-before-bound");
+    }
+    if reactivated_lock {
+        ctx.label("group-with-fired-lock-rule-reactivated-by-action");
+    }
+    if multi_pass {
+        ctx.label("more-firings-than-rules");
+    }
+    if early_stops > 0 && (reactivated_lock || multi_pass) {
+        ctx.nontrivial(hash_of(&c));
+    }
+    Verdict::Pass
+}
+
 /// name the mechanism: which attribute explains the first difference
 fn classify_trace_diff(c: &Case, got: &[String], expected: &[String]) -> String {
     let i = got.iter().zip(expected.iter()).take_while(|(a, b)| a == b).count();
